@@ -26,6 +26,9 @@ def load_sidecars(prop):
         m = importlib.util.module_from_spec(spec)
         spec.loader.exec_module(m)
         api.REG.sidecars.append(os.path.relpath(f, ROOT))
+        for k, v in vars(m).items():
+            if k.isupper() and isinstance(v, (str, int, float)):
+                api.REG.consts[k] = v
     work = os.path.join(ROOT, "evidence", "work", prop + ".extract.json")
     if os.path.exists(work):
         api.REG.consts.update(json.load(open(work)).get("consts", {}))
@@ -38,6 +41,10 @@ def run(prop, tier="quick", only=None, verbose=False, workers=12):
     eng = Verifier(reg, prop)
     eng.declare_specs()
     errors = []
+    try:
+        eng.verify_lemmas()
+    except (OutOfSubset, CheckerError) as ex:
+        errors.append(("lemmas", type(ex).__name__, str(ex)))
     for key, c in reg.contracts.items():
         if not c.verify or (only and only not in c.func):
             continue
